@@ -23,6 +23,10 @@ Definition zruns (l : list (Z * nat)) : list Z := flat_map (fun p => zseq (fst p
 
 Inductive act :=
 | AAdd (c : nat) (t : task) (w : Z)
+| AAddS (c : nat) (t : task) (w : Z)
+     (* Add by a producer that is parked between addAndCheck and the send on commander (if it
+        removed a threshold batch) until [ASendGo]; all Adds of the clients in [csplit] are such *)
+| ASendGo (c : nat)       (* let that producer go on; done only while the commander channel is empty *)
 | AAddN (c : nat) (first : Z) (n : nat)   (* n Adds of weight 1 in a row by client c: first, first+1, ... *)
 | AFlush (c : nat) | AWait (c : nat)
 | ASync (c : nat) (snap : option batch)   (* Sync(fn); snap: the container as fn saw it (if fn looked) *)
@@ -40,13 +44,15 @@ Record obs := mkObs
     oguard : bool; ocmd : bool; otick : bool; obenter : bool;
     obflush : bool;   (* a flusher is blocked in the enterExecution of a Flush (tick or deferred) *)
     oqpark : bool;    (* a flusher is parked before shallQuit *)
-    ospark : bool     (* a flusher that decided to quit is parked inside ticker.Stop() *) }.
+    ospark : bool;    (* a flusher that decided to quit is parked inside ticker.Stop() *)
+    osplit : list bool (* per client: parked between addAndCheck and the send on commander *) }.
 
 (* the log of ONE executor instance; a case is the list of the instances that ran at once *)
 Record icase := mkCase
   { cmaxw : Z; cinterval : Z; cbad : list task; cdrained : bool;
     cerr : bool;       (* the executor could not finish the history (no quiescence, shutdown never returned) *)
     cgateq : bool; cgates : bool; cn : nat;
+    csplit : list nat;   (* clients whose Adds are parked before the send on commander (AAddS) *)
     ckd : ckind; cemp : cempty;   (* the instance's container (Containers.shape_of) *)
     cremoved : list (batch * bval);
        (* every value RemoveAll handed out during the history: the tasks the container put into it
@@ -132,15 +138,22 @@ Definition bmin (h : batch) : Z :=
 
 Definition is_quit (p : bpc) : bool := match p with BQuit _ => true | _ => false end.
 Definition is_stop (p : bpc) : bool := match p with BStop => true | _ => false end.
-(* which optional gates the executor uses in this case: before shallQuit, inside ticker.Stop *)
-Definition gates := (bool * bool)%type.
+(* which optional gates the executor uses in this case: before shallQuit, inside ticker.Stop, and the
+   clients whose Adds are parked before the send on commander *)
+Definition gates := (bool * bool * list nat)%type.
+Definition gq_quit (g : gates) : bool := fst (fst g).
+Definition gq_stop (g : gates) : bool := snd (fst g).
+Definition gq_split (g : gates) : list nat := snd g.
+Definition split_parked (g : gates) (c : nat) (p : cpc) : bool :=
+  match p with CAddSend _ => existsb (Nat.eqb c) (gq_split g) | _ => false end.
 
 Definition internal_succs (cfg : config) (gq : gates) (s : state) : list state :=
   flat_map (fun c =>
     match nth_error (cl s) c with
     | Some p => match gated_c cfg p with
                 | Some _ => []
-                | None => match cstep cfg s c with Some s' => [s'] | None => [] end
+                | None => if split_parked gq c p then [] else
+                          match cstep cfg s c with Some s' => [s'] | None => [] end
                 end
     | None => []
     end) (seq 0 (length (cl s))) ++
@@ -149,7 +162,7 @@ Definition internal_succs (cfg : config) (gq : gates) (s : state) : list state :
     | Some p => match gated_b cfg p with
                 | Some _ => []
                 | None =>
-                  if (fst gq && is_quit p) || (snd gq && is_stop p) then [] else
+                  if (gq_quit gq && is_quit p) || (gq_stop gq && is_stop p) then [] else
                   match bstep cfg s b false with Some s' => [s'] | None => [] end ++
                   match p with
                   | BSelect _ _ => match bstep cfg s b true with Some s' => [s'] | None => [] end
@@ -251,6 +264,12 @@ Fixpoint add_n (cfg : config) (s : state) (c : nat) (t : Z) (n : nat) : state :=
 Definition apply_act (cfg : config) (n : nat) (s : state) (a : act) : option state :=
   match a with
   | AAdd c t w => Some (exec cfg s (EvCall c (CAdd t w)))
+  | AAddS c t w => Some (exec cfg s (EvCall c (CAdd t w)))
+  | ASendGo c =>
+    match nth_error (cl s) c, cmd s with
+    | Some (CAddSend _), None => Some (exec cfg s (EvC c))
+    | _, _ => None
+    end
   | AAddN c t k =>
     match nth_error (cl s) c with
     | Some CIdle => Some (add_n cfg s c t k)
@@ -302,19 +321,22 @@ Definition is_got (p : bpc) : bool := match p with BGot _ _ => true | _ => false
 Definition is_bflush (p : bpc) : bool :=
   match p with BTick FEnter _ | BExit FEnter => true | _ => false end.
 
+Fixpoint split_flags (gq : gates) (i : nat) (l : list cpc) : list bool :=
+  match l with [] => [] | p :: l' => split_parked gq i p :: split_flags gq (S i) l' end.
+
 Definition project (cfg : config) (gq : gates) (n : nat) (s : state) : obs :=
   mkObs (firstn n (map is_idle (cl s))) (parked_of cfg s) (cont s) (csize s) (inflight s) (guarded s)
         (match cmd s with Some _ => true | None => false end)
         (tick s && existsb ticker_live (fl s)) (existsb is_got (fl s))
-        (existsb is_bflush (fl s)) (fst gq && existsb is_quit (fl s))
-        (snd gq && existsb is_stop (fl s)).
+        (existsb is_bflush (fl s)) (gq_quit gq && existsb is_quit (fl s))
+        (gq_stop gq && existsb is_stop (fl s)) (firstn n (split_flags gq 0 (cl s))).
 
 Definition obs_eqb (a b : obs) : bool :=
   list_eqb Bool.eqb (oidle a) (oidle b) && list_eqb zs_eqb (oparked a) (oparked b) &&
   zs_eqb (ocont a) (ocont b) && (osize a =? osize b) && (oinfl a =? oinfl b) && Bool.eqb (oguard a) (oguard b) &&
   Bool.eqb (ocmd a) (ocmd b) && Bool.eqb (otick a) (otick b) && Bool.eqb (obenter a) (obenter b) &&
   Bool.eqb (obflush a) (obflush b) && Bool.eqb (oqpark a) (oqpark b) &&
-  Bool.eqb (ospark a) (ospark b).
+  Bool.eqb (ospark a) (ospark b) && list_eqb Bool.eqb (osplit a) (osplit b).
 
 Definition FUEL : nat := Nat.mul 400 500.
 
@@ -352,7 +374,7 @@ Fixpoint follow (cfg : config) (gq : gates) (n : nat) (S : list state) (steps : 
 (* the observed log of one instance is a trace of the model (n real clients + the shutdown listener) *)
 Definition agrees_i (c : icase) : bool :=
   removed_ok c &&
-  follow (cfg_of c) (cgateq c, cgates c) (cn c) [init (S (cn c))] (csteps c).
+  follow (cfg_of c) (cgateq c, cgates c, csplit c) (cn c) [init (S (cn c))] (csteps c).
 Definition agrees (cs : case) : bool := forallb agrees_i cs.
 
 (* what the model allows after the longest prefix it can follow (diagnostics) *)
@@ -368,7 +390,7 @@ Fixpoint follow_diag (cfg : config) (gq : gates) (n : nat) (S : list state) (ste
     end
   end.
 Definition model_obs_i (c : icase) : Z * list obs :=
-  follow_diag (cfg_of c) (cgateq c, cgates c) (cn c) [init (S (cn c))] (csteps c) 0.
+  follow_diag (cfg_of c) (cgateq c, cgates c, csplit c) (cn c) [init (S (cn c))] (csteps c) 0.
 (* per instance: index of the first step the model cannot follow (-1: none) and what it allows there *)
 Definition model_obs (cs : case) : list (Z * list obs) :=
   map (fun c => let r := model_obs_i c in if fst r =? -1 then (-1, []) else r) cs.
@@ -376,7 +398,7 @@ Definition model_obs (cs : case) : list (Z * list obs) :=
 (* ---------- the property on the observed log (independent of the model) ---------- *)
 Definition nth_idle (o : obs) (c : nat) : bool := nth c (oidle o) false.
 
-Definition obs0 (n : nat) : obs := mkObs (repeat true n) [] [] 0 0 false false false false false false false.
+Definition obs0 (n : nat) : obs := mkObs (repeat true n) [] [] 0 0 false false false false false false false (repeat false n).
 
 (* sets of tasks as sorted lists (merge sort: the BulkInserter cases carry thousands of rows) *)
 Module ZOrder <: TotalLeBool.
@@ -422,6 +444,7 @@ Record an := mkAn
     a_pending : list (nat * task);      (* Add calls in progress: client, task *)
     a_completed : list task;            (* tasks whose callback was released (returned or panicked) *)
     a_waits : list (nat * list task);   (* Wait calls in progress: client, tasks added before it started *)
+    a_flushes : list (nat * list task); (* Flush calls in progress: client, tasks added before it started *)
     a_ok : bool }.
 
 Definition find_parked (o : obs) (m : Z) : batch :=
@@ -432,7 +455,7 @@ Definition an_step (a : an) (st : act * obs) : an :=
   let prev := a_prev a in
   (* 1. the controller action *)
   let new_tasks := match ac with
-                   | AAdd c t _ => if nth_idle prev c then [(c, t)] else []
+                   | AAdd c t _ | AAddS c t _ => if nth_idle prev c then [(c, t)] else []
                    | AAddN c t n => if nth_idle prev c then map (fun x => (c, x)) (zseq t n) else []
                    | _ => [] end in
   let started := a_started a ++ map snd new_tasks in
@@ -440,6 +463,9 @@ Definition an_step (a : an) (st : act * obs) : an :=
   let waits := match ac with
                | AWait c => if nth_idle prev c then a_waits a ++ [(c, a_returned a)] else a_waits a
                | _ => a_waits a end in
+  let flushes := match ac with
+                 | AFlush c => if nth_idle prev c then a_flushes a ++ [(c, a_returned a)] else a_flushes a
+                 | _ => a_flushes a end in
   let released := match ac with ARel m _ => find_parked prev m | _ => [] end in
   (* the batch a callback holds is the same when the callback returns as when it started, and
      Sync's fn sees the container as it is *)
@@ -456,6 +482,10 @@ Definition an_step (a : an) (st : act * obs) : an :=
   let waits' := filter (fun cw => negb (nth_idle o (fst cw))) waits in
   (* Wait returns only after the callbacks for all tasks added before it have returned *)
   let wait_ok := forallb (fun cw => subset_z (snd cw) completed) waits_done in
+  (* an explicit Flush returns only when nothing added before it is left in the container *)
+  let flushes_done := filter (fun cw => nth_idle o (fst cw)) flushes in
+  let flushes' := filter (fun cw => negb (nth_idle o (fst cw))) flushes in
+  let flush_ok := forallb (fun cw => forallb (fun t => negb (existsb (Z.eqb t) (ocont o))) (snd cw)) flushes_done in
   (* conservation: what is visible is duplicate-free and was accepted; when no Add is
      in progress, everything accepted is visible *)
   let visible := completed ++ concat (oparked o) ++ ocont o in
@@ -463,10 +493,11 @@ Definition an_step (a : an) (st : act * obs) : an :=
                  (match pending' with [] => perm_z visible started | _ => true end) &&
                  (* pending tasks have an owner: a live flusher loop, or a flusher about to flush *)
                  (match ocont o with [] => true | _ => oguard o || obflush o || ospark o end) in
-  mkAn o started returned pending' completed waits' (a_ok a && wait_ok && cons_ok && content_ok).
+  mkAn o started returned pending' completed waits' flushes'
+       (a_ok a && wait_ok && flush_ok && cons_ok && content_ok).
 
 Definition analyse (c : icase) : an :=
-  fold_left an_step (csteps c) (mkAn (obs0 (cn c)) [] [] [] [] [] true).
+  fold_left an_step (csteps c) (mkAn (obs0 (cn c)) [] [] [] [] [] [] true).
 
 (* at the end of a log that ends with a drain (releases, a Wait, releases) every call
    has returned, nothing is parked, and every accepted task has been executed *)
@@ -494,4 +525,4 @@ Fixpoint follow_sizes (cfg : config) (gq : gates) (n : nat) (S : list state) (st
     end
   end.
 Definition model_sizes (cs : case) : list (list nat) :=
-  map (fun c => follow_sizes (cfg_of c) (cgateq c, cgates c) (cn c) [init (S (cn c))] (csteps c)) cs.
+  map (fun c => follow_sizes (cfg_of c) (cgateq c, cgates c, csplit c) (cn c) [init (S (cn c))] (csteps c)) cs.
